@@ -133,6 +133,7 @@ def lin_cond(ct, truth, vars_):
 
 def check(repo, rep):
     cx = Ctx(repo)
+    rep.cx = cx
     # ---------------------------------------------------------------- 1. the decision
     vl = cx.leaves('util', 'AudioEnergyValidator.is_valid')
     vfn = cx.fn('util', 'AudioEnergyValidator.is_valid')
@@ -276,9 +277,15 @@ def check(repo, rep):
     sl = cx.leaves('util', 'make_channel_selector')
     sfn = cx.fn('util', 'make_channel_selector')
     to_arr = P.call(P.glob('partial'), P.glob('to_array'), sample_width=P.param('sample_width'), channels=P.param('channels'))
+
+    def applied(xpat):
+        # the decoder applied to the window: the partial object called with it, or (what the evaluator reduces that to) the call itself
+        return P.call(to_arr, xpat) | P.call(P.glob('to_array'), xpat, sample_width=P.param('sample_width'), channels=P.param('channels')) \
+            | P.call(P.glob('to_array'), xpat, P.param('sample_width'), P.param('channels'))
     int_accept, int_reject = [], []
     seen = dict(all=0, int=0, mix=0, bad=0)
     sel_sets = []
+    mean_leaves = []
     for l in sl:
         where = cx.where('util', l.node)
         conds = l.conds
@@ -290,6 +297,10 @@ def check(repo, rep):
                 g = norm_cmp(c[0], c[1])
                 if g and g[0] in ('in', 'not in') and g[1] == ('p', 'selected') and any(x == ('c', key) for x in walk(g[2])):
                     out.append((('cmp', 'in', g[1], g[2]), g[0] == 'in'))
+                elif g and g[0] in ('==', '!=', 'is', 'is not') and g[1] == ('p', 'selected') and g[2] == ('c', key):
+                    out.append((('cmp', 'in', g[1], ('tuple', (g[2],))), g[0] in ('==', 'is')))        # selected == "mix" is selected in ("mix",)
+            # the membership that holds on this path first
+            out.sort(key=lambda x: not x[1])
             return out
         anyc = member(None)
         mixc = member('mix')
@@ -313,7 +324,7 @@ def check(repo, rep):
             else:
                 int_accept.append((cs, l))
                 v = l.value
-                ok = v[0] == 'lambda' and len(v[1]) == 1 and v[2][0] == 'sub' and P.call(to_arr, P.Pat(lambda t, _v=v: t == ('lp', _v[1][0]), 'x'))(v[2][1])
+                ok = v[0] == 'lambda' and len(v[1]) == 1 and v[2][0] == 'sub' and applied(P.Pat(lambda t, _v=v: t == ('lp', _v[1][0]), 'x'))(v[2][1])
                 idx = v[2][2] if ok else None
                 okidx = idx in (('p', 'selected'), ('bin', '+', ('p', 'selected'), ('p', 'channels')))
                 why = ''
@@ -343,15 +354,27 @@ def check(repo, rep):
             keys = {x[1] for x in mixc[0][0][3][1] if x[0] == 'c'}
             v = l.value
             ok = l.outcome == 'return' and v[0] == 'lambda' and len(v[1]) == 1 and v[2][0] == 'call' and v[2][1][0] == 'attr' and v[2][1][2] == 'mean' \
-                and P.call(to_arr, P.Pat(lambda t, _v=v: t == ('lp', _v[1][0]), 'x'))(v[2][1][1]) and dict(v[2][3]).get('axis', v[2][2][0] if v[2][2] else None) == ('c', 0)
-            rep.ob('"mix"/"avg"/"average": per-sample arithmetic mean of the channels (mean over axis 0)', ok and keys == {'mix', 'avg', 'average'}, where, 'make_channel_selector[mix]', 'names %s -> %s' % (sorted(keys), show(v)[:120]),
+                and applied(P.Pat(lambda t, _v=v: t == ('lp', _v[1][0]), 'x'))(v[2][1][1]) and dict(v[2][3]).get('axis', v[2][2][0] if v[2][2] else None) == ('c', 0)
+            mean_leaves.append(l)
+            rep.ob('"mix"/"avg"/"average": per-sample arithmetic mean of the channels (mean over axis 0)', ok, where, 'make_channel_selector[mix]', 'names %s -> %s' % (sorted(keys), show(v)[:120]),
                    sample=dict(mode='mix', names=sorted(keys), selector=show(v)[:100]))
             continue
         if l.outcome == 'raise':
             seen['bad'] += 1
             rep.ob('an unknown channel selection raises ValueError', exc_name(l) == 'ValueError', where, 'make_channel_selector[unknown]', 'raises %s' % exc_name(l))
         else:
-            rep.ob('every other channel selection is rejected', False, where, 'make_channel_selector[unknown]:accepted', 'returns %s under %s' % (show(l.value)[:60], [(show(c[0])[:40], c[1]) for c in conds]))
+            # which names lead here is decided by the name-dispatch rule below (each name is taken through the path conditions);
+            # here only the shape of what is returned is checked
+            v = l.value
+            ismean = v is not None and v[0] == 'lambda' and len(v[1]) == 1 and v[2][0] == 'call' and v[2][1][0] == 'attr' and v[2][1][2] == 'mean' \
+                and applied(P.Pat(lambda t, _v=v: t == ('lp', _v[1][0]), 'x'))(v[2][1][1]) and dict(v[2][3]).get('axis', v[2][2][0] if v[2][2] else None) == ('c', 0)
+            if ismean:
+                seen['mix'] += 1
+                mean_leaves.append(l)
+            elif v is not None and to_arr(v):
+                seen['all'] += 1
+            else:
+                rep.unknown('make_channel_selector: a path returns %s, which is neither all channels, a row, nor the mean' % (show(v)[:80] if v else None))
     for k, n in seen.items():
         rep.ob('make_channel_selector has a %s branch' % k, n >= 1, cx.where('util', sfn), 'make_channel_selector:missing-%s' % k)
     # integer guard region == { -channels <= selected < channels } (given channels >= 2): the path taken by each (selected, channels)
@@ -381,6 +404,25 @@ def check(repo, rep):
                'make_channel_selector[int]:region', bad[1] if bad else None, sample=dict(rule='index region', grid_points=npt))
     except Undecided as exc:
         rep.unknown('make_channel_selector: integer index region not decided (%s)' % exc)
+    # which names select what, decided by taking each name through the path conditions (2 and 3 channels)
+    try:
+        bad = None
+        for ch_ in (2, 3):
+            for name_, want in ((None, 'all'), ('any', 'all'), ('mix', 'mean'), ('avg', 'mean'), ('average', 'mean'), ('left', 'error'), ('', 'error'), ('Mix', 'error'), ('max', 'error')):
+                a_ = {('p', 'selected'): name_, ('p', 'channels'): ch_}
+                hit = [l for l in sl2 if holds(l, evaluator(a_))]
+                if len(hit) != 1:
+                    raise Undecided('%d paths apply to selected=%r, channels=%d' % (len(hit), name_, ch_))
+                l = hit[0]
+                got = 'error' if l.outcome == 'raise' else ('all' if to_arr(l.value) else ('mean' if any(l is m_ for m_ in mean_leaves) or (l.value[0] == 'lambda' and any(x[0] == 'attr' and x[2] == 'mean' for x in walk(l.value))) else 'other'))
+                if got != want:
+                    bad = bad or (l, 'use_channel=%r with %d channels selects %s; it must select %s' % (name_, ch_, got, {'all': 'all channels (maximum over channels)', 'mean': 'the mean of the channels', 'error': 'nothing (ValueError)'}[want]))
+                elif want == 'error' and exc_name(l) != 'ValueError':
+                    bad = bad or (l, 'use_channel=%r raises %s, not ValueError' % (name_, exc_name(l)))
+        rep.ob('None/"any" select all channels, "mix"/"avg"/"average" their mean, any other name raises ValueError', bad is None, cx.where('util', bad[0].node) if bad and bad[0].node is not None else cx.where('util', sfn),
+               'make_channel_selector:names', bad[1] if bad else None, sample=dict(rule='name dispatch'))
+    except Undecided as exc:
+        rep.unknown('make_channel_selector: name dispatch not decided (%s)' % exc)
     # sibling agreement: the "all channels" name set is the same in selector and aggregation
     for a in all_sets:
         for b in sel_sets:
